@@ -7,6 +7,7 @@ from .c02_evidence import ev_inv
 # The class invariant of the standard sampler between iterations.
 LIVE_INV = [
     "self.nlive >= 1",
+    "self.live_points is not None",
     "len(self.live_points) == self.nlive",
     "sorted_by(self.live_points, 'logL')",
     # bookkeeping agrees: one evidence entry per discarded point (+ the
@@ -37,6 +38,7 @@ contract(
     NS, "NestedSampler.insert_live_point", props=["C01", "C13"],
     params={"live_point": LP_ROW},
     requires=[
+        "self.live_points is not None",
         "len(self.live_points) == self.nlive",
         "self.nlive >= 1",
         "sorted_by(self.live_points, 'logL')",
@@ -45,6 +47,7 @@ contract(
     modifies=["self.live_points"],
     returns="Int",
     ensures=[
+        "self.live_points is not None",
         "len(self.live_points) == old(len(self.live_points))",
         "sorted_by(self.live_points, 'logL')",
         "0 <= result and result < self.nlive",
@@ -132,6 +135,7 @@ contract(
             "count >= 0",
             "self.block_iteration >= 1",
             # the live set is untouched until the replacement is accepted
+            "self.live_points is not None",
             "len(self.live_points) == self.nlive",
             "forall(i, 0, self.nlive, row_eq(self.live_points[i], "
             "old(self.live_points)[i]))",
@@ -209,6 +213,7 @@ contract(
             "modifies": ["self.logLmax", "self.proposal", "self.model"]},
     },
     ensures=[
+        "self.live_points is not None",
         "len(self.live_points) == self.nlive",
         "sorted_by(self.live_points, 'logL')",
         "forall(k, 0, self.nlive, self.live_points[k]['it'] == 0)",
